@@ -605,7 +605,10 @@ def run_obligation(ob: Obligation, known=(), tier="quick"):
     """Full treatment of one obligation.  Returns a JSON-able result dict."""
     t0 = time.time()
     base = ob.name.split("[")[0]
-    known_here = [k for k in known if k.get("obligation", "").split("[")[0] == base and k.get("status", "open") == "open"]
+    def _bases(k):
+        o = k.get("obligation", "")
+        return [x.split("[")[0] for x in (o if isinstance(o, list) else [o])]
+    known_here = [k for k in known if base in _bases(k) and k.get("status", "open") == "open"]
     known_open = [k["id"] for k in known_here]
     res = {
         "obligation": ob.name, "kind": ob.kind, "bound": ob.bound, "doc": ob.doc,
@@ -666,7 +669,8 @@ def run_obligation(ob: Obligation, known=(), tier="quick"):
     # known findings: replay each listed witness without its exclusion
     for k in known_here:
         st, failing, detail = replay_concrete(ob, k.get("witness", {}), known_open, tier, ignore_exclusions=True)
-        still = st in ("failed", "raised") and (k.get("clause") in failing or not k.get("clause"))
+        own = (not k.get("witness_for")) or k.get("witness_for") == base
+        still = st in ("failed", "raised") and (k.get("clause") in failing or not k.get("clause") or not own)
         res["known_findings"].append({"id": k["id"], "still_fails": still, "what": k.get("what", ""), "replay": [st, failing, detail]})
     if res["violations"]:
         status = "violated"
